@@ -164,7 +164,15 @@ def tpl_text(parts):
     return ''.join(t if k == 'lit' else '${VERIF_%s}' % t for k, t in parts)
 
 
-def probe_lines(p, extra=''):
+ACTORS = ['command-line', 'shell', 'file']
+
+
+def actor_of(case):
+    import zlib
+    return ACTORS[zlib.crc32(json.dumps(case['hist'], sort_keys=True).encode()) % 3]
+
+
+def probe_lines(p, extra='', actor='command-line'):
     args = pid(p)
     if 'str' in p['syms']:
         args += ' a.S=@[S]@'
@@ -189,6 +197,11 @@ def probe_lines(p, extra=''):
     if kind == 'pgmsym':
         return ['run @ G ' + args]
     if kind == 'atc':
+        # the action to check sees the act set WHATEVER the actor: command line (file / shell), file interpreter
+        if actor == 'shell':
+            return ['$ sh @[EXACTLY_HOME]@/probe.sh ' + args]
+        if actor == 'file':
+            return ['probe.sh ' + args]
         return ['@[EXACTLY_HOME]@/probe.sh ' + args]
     raise ValueError(kind)
 
@@ -216,10 +229,11 @@ def instr_lines(i, k, short=1):
 def concretize(case):
     """the test case: instructions and probes in the order of execution the specification gives them
     (a probe with at = k comes after setting k and before setting k + 1)"""
+    actor = actor_of(case)
     items = []
     for j, p in enumerate(case['probes']):
         if p['kind'] != 'envsrc':
-            items.append(((p['at'], 0, j), p['ph'], probe_lines(p)
+            items.append(((p['at'], 0, j), p['ph'], probe_lines(p, actor=actor)
                           + (['run -rel-home probe.sh canary-after-%s' % pid(p)] if p['killed'] and p['ph'] != 'act'
                              else [])))
     for k, i in enumerate(case['hist'], 1):
@@ -233,6 +247,8 @@ def concretize(case):
             body[ph] = (['@[EXACTLY_HOME]@/probe.sh canary-act'] if ph == 'act'
                         else ['run -rel-home probe.sh canary-%s' % ph])
     body['setup'] = FIXTURE + body['setup']
+    if actor == 'file' and body['act'] and body['act'][0].startswith('probe.sh '):
+        return '[conf]\nactor = file % sh\n' + ''.join('[%s]\n%s\n' % (PHASE_HEADER[ph], '\n'.join(body[ph])) for ph in PHASES)
     return ''.join('[%s]\n%s\n' % (PHASE_HEADER[ph], '\n'.join(body[ph])) for ph in PHASES)
 
 
